@@ -495,7 +495,14 @@ fn build_function(m: &mut Module, st: &EditState, seed: u64, sig: u32, kind: &Bo
     };
     let w = world(m);
     let mut rng = Rng::new(seed);
-    let args: Vec<LocalId> = params.iter().map(|t| m.locals.add(*t)).collect();
+    // the argument locals are not always allocated in parameter order (nothing in the API asks for that)
+    let args: Vec<LocalId> = if rng.bool() {
+        params.iter().map(|t| m.locals.add(*t)).collect()
+    } else {
+        let mut rev: Vec<LocalId> = params.iter().rev().map(|t| m.locals.add(*t)).collect();
+        rev.reverse();
+        rev
+    };
     let mut locals: Vec<(LocalId, ValType)> = args.iter().cloned().zip(params.iter().cloned()).collect();
     for _ in 0..rng.below(3) {
         let t = *rng.pick(&[ValType::I32, ValType::I64, ValType::F64]);
